@@ -110,8 +110,8 @@ _mk("C02", "render.structural", ("structural",), _render_oracle(), "composited c
 _mk("C03", "render.clipped", ("clipped",), _render_oracle(extra=_no_clip_left), "as C02, with clip membership; plus: no clip-path / clipPath left in the output", pinned=("use_clip_target_transform", "clip_rule_on_the_clippath"))
 _mk("C05", "render.cascade", ("cascade",), _render_oracle(), "composited colour (source-over, group opacity) of source vs converted document at grid points",
     pinned=("root_opacity", "explicit_fill_equal_to_defs_context", "opacity_rounded_with_coordinates"))
-_mk("C06", "render.gradients", ("gradients",), _render_oracle(extra=_gradients_self_contained), "gradient colour at interior grid points of source vs converted document; output gradients self-contained")
-_mk("C04", "render.stroked", ("stroked",), _render_oracle(stroke=True), "three-valued stroke region: points well inside the stroke band or well outside it (caps, joins, band edge skipped), source vs converted")
+_mk("C06", "render.gradients", ("gradients",), _render_oracle(extra=_gradients_self_contained), "gradient colour at interior grid points of source vs converted document; output gradients self-contained", pinned=("stroke_gradient_under_transform",))
+_mk("C04", "render.stroked", ("stroked",), _render_oracle(stroke=True), "three-valued stroke region: points well inside the stroke band or well outside it (caps, joins, band edge skipped), source vs converted", pinned=("stroke_width_zero", "stroke_opacity_above_one"))
 
 
 def _grammar_oracle(name, doc, out, exc, kw):
